@@ -1096,6 +1096,9 @@ func (wd *world) actStaleSeq(t *rapid.T) {
 			delete(got, m.uid)
 		}
 		for u := range got {
+			if store {
+				break // a pending flag update of another session looks the same as an answer
+			}
 			wd.fail("%s by a session whose view is %v (mailbox now %v): data for UID %d which the set does not address in that view (expected UIDs %v)", text, uids(view), uids(s.sel.msgs), u, uids(expect))
 		}
 		if store && len(expect) > 0 {
